@@ -767,7 +767,7 @@ def run(ctx):
     ctx.partial_notes = PARTIAL[pid]
     if ctx.tier == "thorough":
         lean.leanchecker(ctx, MODULES[pid])
-    t_end = ctx.t0 + ctx.scale(75, 1050)
+    t_end = ctx.t0 + ctx.scale(60, 1050)
 
     # replay of one input
     if ctx.replay:
@@ -813,7 +813,8 @@ def run(ctx):
     # largest first, round robin, so that the big files do not end up in one shard
     for k, f in enumerate(reversed(files)):
         per[k % nshards].append(f)
-    n_cases = ctx.scale(40, 900) if pid == "C05" else ctx.scale(28, 600)
+    # upper bounds; every shard stops at t_end (time-boxed: 75 s quick, 1050 s thorough)
+    n_cases = ctx.scale(120, 2500) if pid == "C05" else ctx.scale(90, 1800)
     args = [(pid, ctx.seed, s, n_cases, ctx.tier, t_end, per[s], None) for s in range(nshards)]
     shard.run_shards(ctx, worker, args)
 
@@ -823,12 +824,9 @@ def run(ctx):
     broken = [o for o in ctx.obligations if not o[1]]
     if (real_corr or broken) and not [s for s in ctx.spec if s["signature"] not in open_sigs]:
         t_end2 = min(ctx.t0 + ctx.budget_s - 20, time.time() + ctx.scale(45, 400))
-        trig = None
-        for c in real_corr:
-            inp = c.get("input") or {}
-            if isinstance(inp, dict) and inp.get("trigger"):
-                trig = inp["trigger"]
-        args = [(pid, ctx.seed + 7919, 100 + s, n_cases * 3, ctx.tier, t_end2, [], ({"trigger": trig} if trig else None))
+        # neighbourhood: the same generators, three times the cases, fresh seeds, NO finding triggers (a
+        # trigger would only reproduce the open findings)
+        args = [(pid, ctx.seed + 7919, 100 + s, n_cases * 3, ctx.tier, t_end2, [], {"trigger": None})
                 for s in range(nshards)]
         before = len(ctx.corr)
         shard.run_shards(ctx, worker, args)
